@@ -7,9 +7,9 @@ CONSTANTS
   MaxFail = 0
   MaxKill = 1
   Eager = FALSE
-  CloseErr = FALSE
-  Defect_LateCloseUnderLock = FALSE
-  Defect_AddDeadConn = TRUE
+  CloseErr = TRUE
+  Defect_LateCloseUnderLock = TRUE
+  Defect_AddDeadConn = FALSE
   Mut = "none"
 INVARIANTS TypeOK NoSelfDeadlock SizeBound OneFiller ClosedEmpty ReportedNotInPool NoStray NoLeakAfterClose
 CHECK_DEADLOCK FALSE
